@@ -23,10 +23,11 @@ theorem literals_canonical :
 
 theorem blacklist_pinned : Generated.C17.blacklistedAccept = Model.C17.blacklistedAccept := by decide
 
-/-- `WriteHeader` decides only while `grw.writer == nil`, compresses only when the status allows a body and
+/-- `WriteHeader` passes a 1xx status on and returns; otherwise it decides only while `grw.writer == nil`, compresses only when the status allows a body and
 `isCompressable` holds, and always ends by forwarding the status. -/
 theorem writeHeader_shape :
-    writeHeaderStmts = ["if grw.writer == nil", "grw.ResponseWriter.WriteHeader(code)"] ∧
+    writeHeaderStmts = ["if code >= 100 && code <= 199", "if grw.writer == nil", "grw.ResponseWriter.WriteHeader(code)"] ∧
+    informationalBranch = ["grw.ResponseWriter.WriteHeader(code)", "return"] ∧
     writeHeaderGuard = "grw.writer == nil" ∧
     compressCond = "bodyAllowedForStatus(code) && isCompressable(grw.Header(), grw.contentTypes)" := by decide
 
@@ -36,6 +37,15 @@ theorem compress_branch_pinned :
     compressBranch = ["grw.Header().Del(headerContentLength)", "grw.Header().Set(headerContentEncoding, encodingGzip)",
       "gzipWriterPool.Get().(*gzip.Writer)", "grw.gzipWriter.Reset(grw.ResponseWriter)", "grw.gzipWriter"] ∧
     plainBranch = ["grw.ResponseWriter"] := by decide
+
+/-- The method set of `*GzipResponseWriter`: the four declared methods plus what the embedded *interface*
+`http.ResponseWriter` promotes (`Header`, `Write`, `WriteHeader` — the latter two shadowed). In particular no
+`Flush`, `ReadFrom`, `Push`, `Unwrap`: a handler's assertion to `http.Flusher` fails, which is what the model's
+`fl` step says. Any new method or embedded field changes the machine and has to be modelled first. -/
+theorem writer_method_set :
+    writerMethods = ["Close", "Hijack", "Write", "WriteHeader"] ∧
+    writerEmbedded = ["http.ResponseWriter"] ∧
+    writerFields = ["writer io.Writer", "gzipWriter *gzip.Writer", "contentTypes *regexp.Regexp"] := by decide
 
 /-- the decision is taken in `WriteHeader` and nowhere else. -/
 theorem decision_single_site :
